@@ -437,6 +437,8 @@ def handle (case impl : List String) : Verdict :=
         | none, _, _ => (v.withDiff true "non-finite").withSpec true "rgbf-not-finite" "hue 0/1 returns a non-finite channel"
     | _ => bad "fhue"
   | "frgba" :: cs =>
+    let sibBad := impl.contains "sib=0"
+    let impl := impl.filter fun t => !t.startsWith "sib="
     match rats? cs with
     | some [r, g, b, a] =>
       -- channel moves are compared exactly (bit patterns); conversions are covered by frgb2hsl/fhsl2rgb
@@ -454,6 +456,8 @@ def handle (case impl : List String) : Verdict :=
       let v := v.withSpec (!(alphaOk g1 && alphaOk g2)) "hsla-alpha" "alpha changed by to_hsla / to_rgba"
       let _ := (r, g, b, a)
       -- panics in these conversions are judged by frgb2hsl / fhsl2rgb on the same code path
+      let v := v.withSpec sibBad "four-channel-door-differs"
+        "Color4f::to_hsla / Color4f<Hsla>::to_rgba disagree with to_hsl / to_rgb on the colour channels of the same colour"
       if g1.any isPanic || g2.any isPanic then v.addTag "frgba-panic" else v
     | _ => bad "frgba"
   | "tou8" :: cs =>
